@@ -262,6 +262,17 @@ func foJudge(allReleased bool, pools ...*foPool) (codes []int64, verdict string)
 	return codes, verdict
 }
 
+// the pool's own findings (what the property is about) take precedence over symptoms seen by the peers
+func foMerge(poolVerdict, symptom string) string {
+	if poolVerdict != "" {
+		if symptom != "" {
+			return poolVerdict + " (first symptom: " + symptom + ")"
+		}
+		return poolVerdict
+	}
+	return symptom
+}
+
 // ---------------------------------------------------------------- labels (encoding of Model/FrameOwn.v dec_label)
 
 type foLabels struct{ v []int64 }
@@ -518,6 +529,9 @@ func foRaw(rng *rand.Rand, items []foItem) (labels []int64, codes []int64, fault
 		}
 	}
 	for _, it := range items {
+		if verdict != "" {
+			break
+		}
 		id++
 		k++
 		switch it.kind {
@@ -668,16 +682,16 @@ func foRaw(rng *rand.Rand, items []foItem) (labels []int64, codes []int64, fault
 			conn.Close()
 			l.readFail(c)
 		}
-		foWait(3*time.Second, reached, pool)
+		if !foWait(3*time.Second, reached, pool) {
+			break // the pool is not where this item should have left it: the comparison with the model will show it
+		}
 	}
 	conn.Close()
 	foSettle(10*time.Millisecond, 300*time.Millisecond, pool)
 	srv.Close()
 	foSettle(20*time.Millisecond, 600*time.Millisecond, pool)
 	cs, v := foJudge(faultFree, pool)
-	if verdict == "" {
-		verdict = v
-	}
+	verdict = foMerge(v, verdict)
 	if os.Getenv("FO_DUMP") != "" {
 		for _, r := range pool.recs {
 			fmt.Fprintf(os.Stderr, "  #%d get=%s rel=%v\n", r.id, r.get, r.rels)
@@ -730,6 +744,9 @@ func foDirect(rng *rand.Rand, calls []foCall) (labels []int64, codes []int64, ve
 	l.local(1, 0)
 	k := int64(100)
 	for _, cl := range calls {
+		if verdict != "" {
+			break
+		}
 		k += 2
 		kc, ks := k, k+1
 		r0, s0 := pc.count(siteW), ps.count(siteW)
@@ -781,10 +798,8 @@ func foDirect(rng *rand.Rand, calls []foCall) (labels []int64, codes []int64, ve
 	cli.Close()
 	srv.Close()
 	foSettle(25*time.Millisecond, 800*time.Millisecond, pc, ps)
-	cs, v := foJudge(true, pc, ps)
-	if verdict == "" {
-		verdict = v
-	}
+	cs, v := foJudge(verdict == "", pc, ps)
+	verdict = foMerge(v, verdict)
 	return l.v, cs, verdict
 }
 
@@ -826,6 +841,9 @@ func foRelay(rng *rand.Rand, calls []foCall, appendArg2 bool) (labels []int64, c
 	l.local(3, 0)
 	k := int64(100)
 	for _, cl := range calls {
+		if verdict != "" {
+			break
+		}
 		k += 2
 		kc, ks := k, k+1
 		r0, s0, f0 := pc.count(siteW), ps.count(siteW), pr.count("relayFragmentSender.newFragment")
@@ -913,10 +931,8 @@ func foRelay(rng *rand.Rand, calls []foCall, appendArg2 bool) (labels []int64, c
 	rly.Close()
 	srv.Close()
 	foSettle(25*time.Millisecond, 800*time.Millisecond, pc, pr, ps)
-	cs, v := foJudge(true, pc, pr, ps)
-	if verdict == "" {
-		verdict = v
-	}
+	cs, v := foJudge(verdict == "", pc, pr, ps)
+	verdict = foMerge(v, verdict)
 	return l.v, cs, verdict
 }
 
@@ -1012,24 +1028,30 @@ func foChaos(rng *rand.Rand, kind int) (verdict string, detail string) {
 		}
 	}
 	var wg sync.WaitGroup
-	par := func(n int, f func(i int)) {
+	// every goroutine gets its own generator, seeded in order from the case's generator
+	par := func(n int, f func(i int, r *rand.Rand)) {
 		for i := 0; i < n; i++ {
 			wg.Add(1)
-			go func(i int) { defer wg.Done(); f(i) }(i)
+			r := rand.New(rand.NewSource(rng.Int63()))
+			go func(i int) { defer wg.Done(); f(i, r) }(i)
 		}
 		wg.Wait()
+	}
+	size := func(r *rand.Rand) int { return pick(r, 0, 10, 3000, 66000, 70000, 140000, 200000) }
+	ms := func(r *rand.Rand, lo, hi int) time.Duration {
+		return time.Duration(lo+r.Intn(hi-lo+1)) * time.Millisecond
 	}
 	var rly *tchannel.Channel
 	switch kind {
 	case 0: // deadlines shorter than the handler, also with multi-fragment arguments
-		par(4, func(i int) {
-			call(cli, srv.PeerInfo().HostPort, "slow", foArg(rng1(i), 100), foArg(rng1(i), []int{10, 70000, 200000, 10}[i]), 40*time.Millisecond, 0)
-			call(cli, srv.PeerInfo().HostPort, "echo", foArg(rng1(i), 10), foArg(rng1(i), 150000), 3*time.Second, 0)
+		par(4, func(i int, r *rand.Rand) {
+			call(cli, srv.PeerInfo().HostPort, pickS(r, "slow", "slow", "echo"), foArg(r, size(r)%5000), foArg(r, size(r)), ms(r, 1, 60), 0)
+			call(cli, srv.PeerInfo().HostPort, "echo", foArg(r, 10), foArg(r, size(r)), 3*time.Second, 0)
 		})
 		time.Sleep(130 * time.Millisecond)
 	case 1: // cancellation while the call is in flight
-		par(4, func(i int) {
-			call(cli, srv.PeerInfo().HostPort, "slow", foArg(rng1(i), 100), foArg(rng1(i), []int{10, 70000, 140000, 0}[i]), time.Second, time.Duration(5+10*i)*time.Millisecond)
+		par(4, func(i int, r *rand.Rand) {
+			call(cli, srv.PeerInfo().HostPort, pickS(r, "slow", "slow", "echo"), foArg(r, 100), foArg(r, size(r)), time.Second, ms(r, 0, 40))
 		})
 		time.Sleep(130 * time.Millisecond)
 	case 2: // relay destination stalls, send buffer of 2 frames: Receive drops frames and fails the calls
@@ -1037,21 +1059,21 @@ func foChaos(rng *rand.Rand, kind int) (verdict string, detail string) {
 		if err != nil {
 			return "harness: " + err.Error(), ""
 		}
-		par(3, func(i int) {
-			call(cli, rly.PeerInfo().HostPort, "echo", foArg(rng1(i), 100), foArg(rng1(i), 400000), 300*time.Millisecond, 0)
+		par(3, func(i int, r *rand.Rand) {
+			call(cli, rly.PeerInfo().HostPort, "echo", foArg(r, 100), foArg(r, 200000+size(r)), 300*time.Millisecond, 0)
 		})
 	case 3: // the server goes away while calls are in flight
 		go func() { time.Sleep(time.Duration(5+rng.Intn(30)) * time.Millisecond); srv.Close() }()
-		par(4, func(i int) {
-			call(cli, srv.PeerInfo().HostPort, "slow", foArg(rng1(i), 100), foArg(rng1(i), []int{10, 70000, 140000, 0}[i]), 400*time.Millisecond, 0)
+		par(4, func(i int, r *rand.Rand) {
+			call(cli, srv.PeerInfo().HostPort, pickS(r, "slow", "echo"), foArg(r, 100), foArg(r, size(r)), 400*time.Millisecond, 0)
 		})
 	case 4: // relay timer fires before the slow destination answers
 		rly, err = mkRelay(0, 0, 50*time.Millisecond)
 		if err != nil {
 			return "harness: " + err.Error(), ""
 		}
-		par(3, func(i int) {
-			call(cli, rly.PeerInfo().HostPort, "slow", foArg(rng1(i), 100), foArg(rng1(i), []int{10, 70000, 0}[i]), 400*time.Millisecond, 0)
+		par(3, func(i int, r *rand.Rand) {
+			call(cli, rly.PeerInfo().HostPort, "slow", foArg(r, 100), foArg(r, size(r)), 400*time.Millisecond, 0)
 		})
 		time.Sleep(130 * time.Millisecond)
 	case 5: // random hostile frames from a raw peer (after a valid handshake), then a valid call
@@ -1091,21 +1113,21 @@ func foChaos(rng *rand.Rand, kind int) (verdict string, detail string) {
 			return "harness: " + err.Error(), ""
 		}
 		go func() { time.Sleep(time.Duration(5+rng.Intn(30)) * time.Millisecond); srv.Close() }()
-		par(3, func(i int) {
-			call(cli, rly.PeerInfo().HostPort, "slow", foArg(rng1(i), 100), foArg(rng1(i), []int{10, 70000, 140000}[i]), 400*time.Millisecond, 0)
+		par(3, func(i int, r *rand.Rand) {
+			call(cli, rly.PeerInfo().HostPort, pickS(r, "slow", "echo"), foArg(r, 100), foArg(r, size(r)), 400*time.Millisecond, 0)
 		})
 	case 7: // many concurrent calls of all kinds, direct and relayed, small send buffers
 		rly, err = mkRelay(4, 0, 0)
 		if err != nil {
 			return "harness: " + err.Error(), ""
 		}
-		par(8, func(i int) {
+		par(8, func(i int, r *rand.Rand) {
 			hp := srv.PeerInfo().HostPort
 			if i%2 == 0 {
 				hp = rly.PeerInfo().HostPort
 			}
-			m := []string{"echo", "apperr", "syserr", "slow"}[i%4]
-			call(cli, hp, m, foArg(rng1(i), 1000), foArg(rng1(i), []int{0, 100, 66000, 200000}[(i/2)%4]), 60*time.Millisecond+time.Duration(i%3)*200*time.Millisecond, 0)
+			m := []string{"echo", "apperr", "syserr", "slow"}[r.Intn(4)]
+			call(cli, hp, m, foArg(r, 1000), foArg(r, size(r)), ms(r, 20, 500), 0)
 		})
 		time.Sleep(130 * time.Millisecond)
 	}
@@ -1122,16 +1144,14 @@ func foChaos(rng *rand.Rand, kind int) (verdict string, detail string) {
 	foSettle(30*time.Millisecond, 1500*time.Millisecond, pc, pr, ps)
 	_, v := foJudge(false, pc, pr, ps)
 	stallMu.Lock()
-	if verdict == "" {
-		verdict = v
-	}
+	verdict = foMerge(v, verdict)
 	stallMu.Unlock()
 	detail = fmt.Sprintf("frames client %d (unreleased %d) relay %d (unreleased %d) server %d (unreleased %d)",
 		len(pc.recs), pc.outstanding(), len(pr.recs), pr.outstanding(), len(ps.recs), ps.outstanding())
 	return verdict, detail
 }
 
-func rng1(i int) *rand.Rand { return rand.New(rand.NewSource(int64(1000 + i))) }
+func pickS(r *rand.Rand, xs ...string) string { return xs[r.Intn(len(xs))] }
 
 // ---------------------------------------------------------------- engine
 
@@ -1148,19 +1168,15 @@ func engineFrameOwn(rng *rand.Rand, n int, tier string, o *Out) {
 	nRaw, nDirect, nRelay, nChaos := n*50/100, n*15/100, n*15/100, n*20/100
 	only := os.Getenv("FO_ONLY")
 	top := rng
+	tooMany := func() bool { return o.fails >= 12 } // enough failing inputs: do not spend minutes in timeouts
 	for i := 0; i < nRaw; i++ {
 		rng := rand.New(rand.NewSource(top.Int63()))
 		items := foGenItems(rng)
+		if tooMany() {
+			break
+		}
 		if only != "" && only != fmt.Sprintf("raw%d", i) {
 			continue
-		}
-		if lc := os.Getenv("FO_LOGCASE"); lc != "" {
-			os.Unsetenv("FO_LOG")
-			os.Unsetenv("FO_DUMP")
-			if lc == fmt.Sprintf("raw%d", i) {
-				os.Setenv("FO_LOG", "1")
-				os.Setenv("FO_DUMP", "1")
-			}
 		}
 		if os.Getenv("FO_DEBUG") != "" {
 			var d []string
@@ -1185,7 +1201,7 @@ func engineFrameOwn(rng *rand.Rand, n int, tier string, o *Out) {
 	}
 	for i := 0; i < nDirect; i++ {
 		rng := rand.New(rand.NewSource(top.Int63()))
-		if only != "" && only != fmt.Sprintf("direct%d", i) {
+		if only != "" && only != fmt.Sprintf("direct%d", i) || tooMany() {
 			continue
 		}
 		calls := foGenCalls(rng)
@@ -1202,7 +1218,7 @@ func engineFrameOwn(rng *rand.Rand, n int, tier string, o *Out) {
 	}
 	for i := 0; i < nRelay; i++ {
 		rng := rand.New(rand.NewSource(top.Int63()))
-		if only != "" && only != fmt.Sprintf("relay%d", i) {
+		if only != "" && only != fmt.Sprintf("relay%d", i) || tooMany() {
 			continue
 		}
 		calls := foGenCalls(rng)
@@ -1226,15 +1242,18 @@ func engineFrameOwn(rng *rand.Rand, n int, tier string, o *Out) {
 	}
 	for i := 0; i < nChaos; i++ {
 		rng := rand.New(rand.NewSource(top.Int63()))
-		if only != "" && only != fmt.Sprintf("chaos%d", i) {
+		if only != "" && only != fmt.Sprintf("chaos%d", i) || tooMany() {
 			continue
 		}
 		kind := i % len(foChaosKinds)
 		verdict, detail := foChaos(rng, kind)
 		o.Hist("chaos kind=" + foChaosKinds[kind])
+		if os.Getenv("FO_DEBUG") != "" {
+			fmt.Fprintf(os.Stderr, "chaos%d %s: %s %s\n", i, foChaosKinds[kind], detail, verdict)
+		}
 		if i < 1 {
 			o.Sample(map[string]interface{}{"sub": "fo_chaos", "kind": foChaosKinds[kind], "detail": detail})
 		}
-		o.Oracle("fo_chaos", fmt.Sprintf("chaos%d", i), true, fmt.Sprintf("%s %d %s", foChaosKinds[kind], i, detail), verdict)
+		o.Oracle("fo_chaos", fmt.Sprintf("chaos%d", i), true, fmt.Sprintf("%s %d", foChaosKinds[kind], i), verdict)
 	}
 }
